@@ -46,8 +46,10 @@ def get_cg_coef(j1, j2, m1, m2, j, m):
     assert j1 >= 0
     assert j2 >= 0
     assert j >= 0
-    if j1 == 0 or j2 == 0:
-        return 1.0
+    if j1 == 0:
+        return 1.0 if (j == j2 and m == m2) else 0.0
+    if j2 == 0:
+        return 1.0 if (j == j1 and m == m1) else 0.0
     sign = 1
     if j1 < j2:
         if (j1 + j2 - j) % 2 == 1:
